@@ -1316,6 +1316,37 @@ example : pxSelOk [⟨0, 0, 2⟩, ⟨0, 2, 4⟩, ⟨1, 0, 3⟩] [⟨0, 0, 1⟩, 
     pixelsFetch [⟨0, 0, 1⟩, ⟨0, 2, 3⟩, ⟨1, 1, 5⟩, ⟨2, 2, 7⟩] (csrIndex [⟨0, 0, 1⟩, ⟨0, 2, 3⟩, ⟨1, 1, 5⟩, ⟨2, 2, 7⟩] 3) 0 2
       = [⟨0, 0, 1⟩, ⟨0, 2, 3⟩, ⟨1, 1, 5⟩] := by decide
 
+/-- an unknown chromosome label is refused -/
+theorem regionOfTriple_unknown (lens : List Nat) (s e : Option Int) :
+    regionOfTriple lens none s e = .error .value := rfl
+
+/-- `parse_region` on a known chromosome accepts exactly the in-bounds triples, unchanged -/
+theorem regionOfTriple_ok (lens : List Nat) (c L : Nat) (h : lens[c]? = some L) (s e : Option Int)
+    (hin : 0 ≤ s.getD 0 ∧ s.getD 0 ≤ e.getD L ∧ e.getD L ≤ L) :
+    regionOfTriple lens (some c) s e = .ok (c, (s.getD 0).toNat, (e.getD (L : Int)).toNat) := by
+  simp only [regionOfTriple, h, (parseRegion_bounds L s e).1 hin]
+
+theorem regionOfTriple_reject (lens : List Nat) (c L : Nat) (h : lens[c]? = some L) (s e : Option Int)
+    (hbad : ¬ (0 ≤ s.getD 0 ∧ s.getD 0 ≤ e.getD L ∧ e.getD L ≤ L)) :
+    regionOfTriple lens (some c) s e = .error .value := by
+  simp only [regionOfTriple, h, (parseRegion_bounds L s e).2 hbad]
+
+/-- `Cooler.extent` end to end: an in-bounds region of a valid table (chromosome lengths = ends of
+the last bins) is accepted and answered with a selection satisfying the property -/
+theorem coolerExtent_ok (bins : BinTable) (hv : validSegmentationB bins = true) (lens : List Nat) (c : Nat)
+    (hc : groupOf bins c ≠ []) (hL : lens[c]? = some (lastStop (groupOf bins c))) (s e : Nat)
+    (hse : s ≤ e) (heL : e ≤ lastStop (groupOf bins c)) :
+    ∃ r, coolerExtent bins lens (getBinsize bins) (some c) (some (s : Int)) (some (e : Int)) = .ok r ∧
+      runOk bins c s e r.1 r.2 = true := by
+  refine ⟨regionToExtent bins (getBinsize bins) c s e, ?_, regionToExtent_ok bins hv c hc s e hse heL⟩
+  have := regionOfTriple_ok lens c _ hL (some (s : Int)) (some (e : Int)) (by simp; omega)
+  simp only [Option.getD_some, Int.toNat_natCast] at this
+  simp only [coolerExtent, this]
+
+example : regionOfTriple [25, 10] (some 1) (some 3) none = .ok (1, 3, 10) ∧
+    regionOfTriple [25, 10] (some 1) (some 3) (some 11) = .error .value ∧
+    regionOfTriple [25, 10] (some 2) none none = .error .value := ⟨rfl, rfl, rfl⟩
+
 /-! ## more non-vacuity -/
 
 /-- `shortest_cover` applies to the run the variable path selects -/
